@@ -128,10 +128,15 @@ class ShaclSerializer(object):
 
 
     def _add_target_class(self, shape, r_shape_uri):
-        if shape.class_uri is not None:
+        if shape.class_uri is not None and self._is_a_class_uri(shape.class_uri):
             self._add_triple(r_shape_uri,
                              _R_SHACL_TARGET_CLASS_PROP,
                              URIRef(shape.class_uri))  # TODO check if this is always an abs. URI, not sure
+
+    @staticmethod
+    def _is_a_class_uri(class_uri):
+        # Shapes built from a shape map carry their label ("<iri>" or a shape name) instead of a class: no target class.
+        return not class_uri.startswith("<") and not class_uri.startswith(_EXPECTED_SHAPE_BEGINING[0])
 
     def _add_min_iri (self, shape, r_shape_uri):
         # if shape.iri_pattern is not None:
